@@ -93,6 +93,9 @@ def gen(rng, tier):
             i = rng.randrange(len(b)); m = bytearray(b); m[i] ^= 1 << rng.randrange(8)
             out.append(Case("scte.decode " + hx(m), kind="fidelity-bitflip", decides=False, nontrivial=False,
                             theorem="Scte.parse_table vs scte35.NewSCTE35"))
+            # whatever still decodes is also re-encoded and printed (String()) on the real object: no panic (C05)
+            out.append(Case("scte.reencode " + hx(m), kind="fidelity-bitflip-reencode", decides=False, nontrivial=False,
+                            theorem="ScteEnc.update_data vs UpdateData on decoded objects; String() does not panic"))
     # the two loops that do not terminate on the pinned /repo (F11): descriptor_loop_length 0xFFFF, and a MID whose inner
     # lengths overshoot segmentation_upid_length; fidelity cases (outcome class belongs to C05)
     loops = ["00fc301100000000000000fff00000ffff00000000",
